@@ -281,3 +281,143 @@ def run_cli_policies(res, tier):
                                        "trace": {"expected_status": want.decode(), "received": got[:60].decode("latin-1"), "ended": ended}})
     finally:
         shutil.rmtree(tmp, ignore_errors=True)
+
+# ---------------------------------------------------------------- configuration matrix through the command line
+def _matrix_configs(rng, tier):
+    """(name, toml sections, cli flags, env, facts the referee needs).  One refusing policy at most per configuration; the other
+    options (log level, IP hashing, json logs, file-size limit, port/root given by TOML / flag / environment) vary freely."""
+    n = 6 if tier == "quick" else 30
+    out = []
+    for i in range(n):
+        ac = rng.choice(["none", "default-deny-only", "allow-loopback", "deny-loopback", "deny-other", "allow-other", "allow-v6-only", "disabled-deny"])
+        rl = rng.choice(["off", "off", "tiny", "large", "default"])
+        if ac not in ("none", "allow-loopback", "deny-other", "disabled-deny") and rl == "tiny": rl = "off"
+        out.append({"name": "m%d" % i, "ac": ac, "rl": rl,
+                    "log_level": rng.choice(["DEBUG", "DEBUG", "INFO", "WARNING", "ERROR"]),
+                    "hash_ips": rng.choice([None, True, False]), "toml_hash_ips": rng.choice([None, True, False]),
+                    "json_logs": rng.random() < 0.3, "log_file": rng.random() < 0.3,
+                    "max_file_size": rng.choice([None, None, 100, 4096]), "max_via": rng.choice(["toml", "flag"]),
+                    "port_via": rng.choice(["toml", "flag", "env"]), "root_via": rng.choice(["toml", "arg", "env"]),
+                    "listing": rng.random() < 0.5})
+    return out
+
+AC_SECTIONS = {"none": None, "default-deny-only": "default_allow = false", "allow-loopback": 'allow_list = ["127.0.0.1"]\ndefault_allow = false',
+               "deny-loopback": 'deny_list = ["127.0.0.0/8"]', "deny-other": 'deny_list = ["192.0.2.0/24", "2001:db8::/32"]',
+               "allow-other": 'allow_list = ["192.0.2.0/24"]', "allow-v6-only": 'allow_list = ["::1", "2001:db8::/32"]\ndefault_allow = true',
+               "disabled-deny": 'enabled = false\ndeny_list = ["127.0.0.0/8"]'}
+AC_ADMITS_LOOPBACK = {"none": True, "default-deny-only": False, "allow-loopback": True, "deny-loopback": False, "deny-other": True,
+                      "allow-other": False, "allow-v6-only": False, "disabled-deny": True}
+RL_SECTIONS = {"off": "enabled = false", "tiny": "capacity = 2\nrefill_rate = 0.001\nretry_after = 7", "large": "capacity = 500\nrefill_rate = 50.0", "default": None}
+RL_CAPACITY = {"off": None, "tiny": 2, "large": 500, "default": 10}
+
+def run_config_matrix(res, tier, pid="C01", seed=0):
+    """`python -m nauyaca serve` under generated configurations (TOML sections, flags, environment): every request of a fixed
+    battery is answered by exactly one well-formed response, and the response is the one the configuration prescribes
+    (refusals 53 / 44 as configured, 59 for an over-long line, the file for an admitted request)."""
+    import random, threading
+    rng = random.Random(1000 + seed)
+    tmp = scratch_dir("nv-live5-")
+    small = b"# small\n"; big = make_body(3000)
+    lock = threading.Lock()
+    def one(cfg):
+        name = cfg["name"]
+        root = os.path.join(tmp, name + "-root"); os.makedirs(root)
+        open(os.path.join(root, "index.gmi"), "wb").write(small)
+        open(os.path.join(root, "big.txt"), "wb").write(big)
+        port = free_port()
+        server = ['host = "127.0.0.1"']
+        flags, env = [], {k: v for k, v in os.environ.items() if not k.startswith("NAUYACA_")}
+        env["PYTHONPATH"] = os.path.join(os.environ.get("NV_REPO", "/repo"), "src")
+        if cfg["port_via"] == "toml": server.append("port = %d" % port)
+        elif cfg["port_via"] == "flag": server.append("port = 1"); flags += ["--port", str(port)]
+        else: server.append("port = 1"); env["NAUYACA_PORT"] = str(port)
+        positional = []
+        if cfg["root_via"] == "toml": server.append('document_root = "%s"' % root)
+        elif cfg["root_via"] == "arg": server.append('document_root = "%s"' % tmp); positional = [root]
+        else: server.append('document_root = "%s"' % tmp); env["NAUYACA_DOCUMENT_ROOT"] = root
+        if cfg["max_file_size"] is not None:
+            if cfg["max_via"] == "toml": server.append("max_file_size = %d" % cfg["max_file_size"])
+            else: flags += ["--max-file-size", str(cfg["max_file_size"])]
+        toml = "[server]\n" + "\n".join(server) + "\n"
+        if RL_SECTIONS[cfg["rl"]] is not None: toml += "\n[rate_limit]\n" + RL_SECTIONS[cfg["rl"]] + "\n"
+        if AC_SECTIONS[cfg["ac"]] is not None: toml += "\n[access_control]\n" + AC_SECTIONS[cfg["ac"]] + "\n"
+        if cfg["toml_hash_ips"] is not None: toml += "\n[logging]\nhash_ips = %s\n" % ("true" if cfg["toml_hash_ips"] else "false")
+        cfgfile = os.path.join(tmp, name + ".toml"); open(cfgfile, "w").write(toml)
+        flags += ["--log-level", cfg["log_level"]]
+        if cfg["hash_ips"] is not None: flags.append("--hash-ips" if cfg["hash_ips"] else "--no-hash-ips")
+        if cfg["json_logs"]: flags.append("--json-logs")
+        if cfg["log_file"]: flags += ["--log-file", os.path.join(tmp, name + ".server.log")]
+        if cfg["listing"]: flags.append("--enable-directory-listing")
+        log = open(os.path.join(tmp, name + ".out"), "wb")
+        p = subprocess.Popen([PY, "-m", "nauyaca", "serve"] + positional + ["--config", cfgfile] + flags, stdout=log, stderr=subprocess.STDOUT, env=env, cwd=tmp)
+        results, up = [], False
+        try:
+            deadline = time.time() + 40
+            while time.time() < deadline and p.poll() is None:
+                try:
+                    socket.create_connection(("127.0.0.1", port), timeout=0.5).close(); up = True; break
+                except OSError:
+                    time.sleep(0.1)
+            if up:
+                # the probe connection above sent nothing: it consumes no allowance (no request reached the chain)
+                battery = ["/", "/missing", "LONG", "/index.gmi?a?b", "/big.txt", "/", "/index.gmi"]
+                for path in battery:
+                    if path == "LONG":
+                        got, ended = fetch(port, "/" + "a" * 1100, 0.0, timeout=15)
+                    else:
+                        got, ended = fetch(port, path, 0.0, timeout=15)
+                    results.append((path, got, ended))
+        finally:
+            p.terminate()
+            try: p.wait(timeout=10)
+            except subprocess.TimeoutExpired: p.kill(); p.wait()
+            log.close()
+        with lock:
+            res.evaluations += 1; res.count("live-config:" + cfg["ac"] + "/" + cfg["rl"]); res.nontriv(("live-config", seed, name))
+            case = {"toml": toml, "flags": flags + positional, "environment": {k: v for k, v in env.items() if k.startswith("NAUYACA_")}}
+            if not up:
+                tail = open(os.path.join(tmp, name + ".out"), "rb").read()[-400:].decode("latin-1")
+                res.violations.append({"clause": "a legitimate configuration starts a server that answers", "signature": "%s:live-config-start" % pid,
+                                       "case": case, "trace": {"server_output": tail}})
+                return
+            valid_seen = 0
+            limit = cfg["max_file_size"]
+            for path, got, ended in results:
+                head, sep, body = got.partition(b"\r\n")
+                wellformed = bool(sep) and len(head) >= 3 and head[:2].isdigit() and head[2:3] == b" " and 10 <= int(head[:2]) <= 69 \
+                    and b"\r" not in head and b"\n" not in head and len(head) - 3 <= 1024 and (head[:1] == b"2" or body == b"") and ended == "eof"
+                st = head[:2]
+                if path == "LONG":
+                    want = {b"59"}
+                else:
+                    valid_seen += 1
+                    if not AC_ADMITS_LOOPBACK[cfg["ac"]]:
+                        want = {b"53"}
+                    elif RL_CAPACITY[cfg["rl"]] is not None and valid_seen > RL_CAPACITY[cfg["rl"]] and cfg["rl"] == "tiny":
+                        want = {b"44"}
+                    elif path == "/missing": want = {b"51"}
+                    elif path == "/big.txt" and limit is not None and limit < len(big): want = {b"50", b"40", b"51", b"59"}
+                    else: want = {b"20"}
+                if pid == "C09":      # the access policy: 53 exactly when the configuration refuses loopback
+                    ok = (st == b"53") == (not AC_ADMITS_LOOPBACK[cfg["ac"]]) or path == "LONG"
+                    clause = "the access policy written in the configuration file is the one the CLI-started server enforces, whatever the other options"
+                elif pid == "C10":    # the allowance: 44 with the configured hint exactly for the requests beyond the capacity
+                    ok = (st == b"44") == (want == {b"44"}) and (st != b"44" or b"7" in head)
+                    clause = "a request is refused with 44 (carrying the configured hint) only when the configured allowance is exhausted, whatever the other options"
+                else:                 # C01: one well-formed response, complete when it is a success; a protocol-invalid line gets 59
+                    ok = wellformed and (st != b"20" or body == (big if path == "/big.txt" else small)) and (path != "LONG" or st == b"59") \
+                        and (st in want or st in (b"53", b"44"))
+                    clause = "under every legitimate configuration each request gets exactly one well-formed response (complete when it is a success)"
+                if not ok:
+                    res.violations.append({"clause": clause,
+                                           "signature": "%s:live-config" % pid, "case": dict(case, request_path=path if path != "LONG" else "/aaaa...(1100 bytes)"),
+                                           "trace": {"expected_status_in": sorted(x.decode() for x in want), "received_head": got[:80].decode("latin-1"),
+                                                     "received_bytes": len(got), "ended": ended, "requests_before": [r[0] for r in results[:results.index((path, got, ended))]]}})
+    try:
+        cfgs = _matrix_configs(rng, tier)
+        threads = [threading.Thread(target=one, args=(c,)) for c in cfgs]
+        for i in range(0, len(threads), 6):
+            for t in threads[i:i + 6]: t.start()
+            for t in threads[i:i + 6]: t.join()
+    finally:
+        shutil.rmtree(tmp, ignore_errors=True)
